@@ -452,6 +452,10 @@ func sendHelloDevice(ctx context.Context, transport Transport, c *TO2Config) (pr
 	}
 
 	// Validate the HelloDeviceHash
+	if !proveOVHdr.Payload.Val.HelloDeviceHash.Algorithm.Valid() {
+		captureErr(ctx, protocol.InvalidMessageErrCode, "")
+		return protocol.Nonce{}, nil, nil, fmt.Errorf("unsupported hash algorithm %d for HelloDevice hash in TO2.ProveOVHdr", int64(proveOVHdr.Payload.Val.HelloDeviceHash.Algorithm))
+	}
 	helloDeviceHash := proveOVHdr.Payload.Val.HelloDeviceHash.Algorithm.HashFunc().New()
 	if err := cbor.NewEncoder(helloDeviceHash).Encode(hello); err != nil {
 		return protocol.Nonce{}, nil, nil, fmt.Errorf("error hashing HelloDevice message to verify against TO2.ProveOVHdr payload's hash: %w", err)
@@ -612,6 +616,9 @@ func (s *TO2Server) proveOVHdr(ctx context.Context, msg io.Reader) (*cose.Sign1T
 	}
 
 	// Hash request
+	if ov.Header.Val.CertChainHash == nil || !ov.Header.Val.CertChainHash.Algorithm.Valid() {
+		return nil, fmt.Errorf("voucher for device %x has a missing or unsupported certificate chain hash", hello.GUID)
+	}
 	helloDeviceHash := protocol.Hash{Algorithm: ov.Header.Val.CertChainHash.Algorithm}
 	helloDeviceHasher := helloDeviceHash.Algorithm.HashFunc().New()
 	_, _ = helloDeviceHasher.Write(rawHello)
